@@ -147,7 +147,7 @@ CellCf(k, df, cell) == [k |-> k, r1 |-> Eff(df.r1, cell.o1), r2 |-> Eff(df.r2, c
 CellOut(k, df, cell, call, env) ==
   [res |-> Route(CellCf(k, df, cell), call),
    sx |-> IF k \in KGe3 \cup KLt3 THEN env.sx ELSE 0,
-   tg |-> IF k \in KHomeo THEN (IF env.tg = "call" THEN "call" ELSE "own") ELSE "-"]
+   tg |-> IF k \in KHomeo THEN (IF env.tg = "none" THEN "own" ELSE env.tg) ELSE "-"]
 
 \* the environment handed to the next iteration: nothing the next cell reads is rebound
 NextEnv(k, env) == env
